@@ -19,6 +19,7 @@ import shutil
 import subprocess
 import sys
 import sysconfig
+import tempfile
 import time
 from concurrent.futures import ThreadPoolExecutor
 from pathlib import Path
@@ -53,16 +54,25 @@ def _py_include() -> str:
     return out.stdout.strip()
 
 
-def sources() -> list[Path]:
-    return sorted((REPO / 'src').glob('*.cpp')) + sorted((REPO / 'src' / 'treespec').glob('*.cpp'))
+def _snapshot(dst: Path) -> None:
+    """copy everything a build depends on (so that hashing and compiling see the same bytes even
+    if /repo is edited while a build is running)"""
+    for sub in ('src', 'include'):
+        shutil.copytree(REPO / sub, dst / sub)
+    shutil.copytree(REPO / 'optree', dst / 'optree',
+                    ignore=shutil.ignore_patterns('*.so', '__pycache__', '*.pyc'))
 
 
-def tree_hash(variant: str) -> str:
+def sources(root: Path) -> list[Path]:
+    return sorted((root / 'src').glob('*.cpp')) + sorted((root / 'src' / 'treespec').glob('*.cpp'))
+
+
+def tree_hash(variant: str, root: Path) -> str:
     h = hashlib.sha256()
     h.update(repr((variant, VARIANTS[variant], COMMON)).encode())
-    files = sources() + sorted((REPO / 'include').rglob('*.h')) + sorted((REPO / 'optree').rglob('*.py'))
+    files = sources(root) + sorted((root / 'include').rglob('*.h')) + sorted((root / 'optree').rglob('*.py'))
     for f in files:
-        h.update(str(f.relative_to(REPO)).encode())
+        h.update(str(f.relative_to(root)).encode())
         h.update(f.read_bytes())
     return h.hexdigest()[:16]
 
@@ -71,13 +81,15 @@ def build(variant: str = 'plain', quiet: bool = True) -> Path:
     """Return the directory to put on PYTHONPATH (contains optree/)."""
     spec = VARIANTS[variant]
     BUILD_ROOT.mkdir(exist_ok=True)
-    digest = tree_hash(variant)
-    out = BUILD_ROOT / f'{variant}-{digest}'
-    pkg = out / 'pkg'
-    done = out / 'DONE'
     lock = open(BUILD_ROOT / f'.lock-{variant}', 'w')
     fcntl.flock(lock, fcntl.LOCK_EX)
+    snap = Path(tempfile.mkdtemp(prefix=f'snap-{variant}-', dir=str(BUILD_ROOT)))
     try:
+        _snapshot(snap)
+        digest = tree_hash(variant, snap)
+        out = BUILD_ROOT / f'{variant}-{digest}'
+        pkg = out / 'pkg'
+        done = out / 'DONE'
         if done.exists():
             return pkg
         t0 = time.time()
@@ -90,7 +102,9 @@ def build(variant: str = 'plain', quiet: bool = True) -> Path:
             shutil.rmtree(old, ignore_errors=True)
         obj = out / 'obj'
         obj.mkdir(parents=True)
-        inc = ['-I', str(REPO / 'include'), '-isystem', PYBIND_INC, '-isystem', _py_include()]
+        # -ffile-prefix-map keeps __FILE__ (used in error messages) independent of the snapshot location
+        inc = ['-I', str(snap / 'include'), '-isystem', PYBIND_INC, '-isystem', _py_include(),
+               f'-ffile-prefix-map={snap}=/repo']
 
         def cc(src: Path) -> Path:
             o = obj / (src.stem + '.o')
@@ -101,10 +115,9 @@ def build(variant: str = 'plain', quiet: bool = True) -> Path:
             return o
 
         with ThreadPoolExecutor(16) as ex:
-            objs = list(ex.map(cc, sources()))
+            objs = list(ex.map(cc, sources(snap)))
         dst = pkg / 'optree'
-        shutil.copytree(REPO / 'optree', dst,
-                        ignore=shutil.ignore_patterns('*.so', '__pycache__', '*.pyc'))
+        shutil.copytree(snap / 'optree', dst)
         so = dst / ('_C' + EXT_SUFFIX)
         r = subprocess.run([spec['cxx'], '-shared', '-o', str(so), *map(str, objs), *spec['ldflags']],
                            capture_output=True, text=True)
@@ -125,6 +138,7 @@ def build(variant: str = 'plain', quiet: bool = True) -> Path:
             print(f'[build] {variant} {digest} built in {time.time() - t0:.1f}s', file=sys.stderr)
         return pkg
     finally:
+        shutil.rmtree(snap, ignore_errors=True)
         fcntl.flock(lock, fcntl.LOCK_UN)
         lock.close()
 
